@@ -1082,9 +1082,10 @@ var mFuncKinds = []string{"vb", "vt", "pb", "pt", "ib", "it"}
 var uFuncKinds = []string{"pb", "pt", "ib", "it"}
 
 type cell struct {
-	m *mCell
-	u *uCell
-	a *anyCell
+	m  *mCell
+	u  *uCell
+	a  *anyCell
+	ua *uAnyCell
 }
 
 // mScripts lists the method scripts of a marshal-side type: the base, every behaviour of the
@@ -1243,6 +1244,13 @@ func buildCells(w *run.W) []cell {
 			cells = append(cells, cell{a: &anyCell{List: li, Val: vi, API: pick(r, mAPIs)}})
 		}
 	}
+	for li := range uAnyLists {
+		for ii := range uAnyInputs {
+			for _, tgt := range []string{"any", "field", "slice"} {
+				cells = append(cells, cell{ua: &uAnyCell{List: li, In: ii, Tgt: tgt}})
+			}
+		}
+	}
 	// (3) sampled function lists of 1-3 entries (decoys included) with random behaviours, all types x positions
 	k := w.Pick(3, 40)
 	for _, t := range mTypes {
@@ -1348,7 +1356,10 @@ func generate(w *run.W) {
 		r := w.Rand("order", w.Shard, pass)
 		r.Shuffle(len(cells), func(i, j int) { cells[i], cells[j] = cells[j], cells[i] })
 		for i, c := range cells {
-			if c.a != nil {
+			if c.ua != nil {
+				c.ua.Ord, c.ua.Shard = pass*len(cells)+i, w.Shard
+				w.Do("uany", c.ua)
+			} else if c.a != nil {
 				c.a.Ord, c.a.Shard = pass*len(cells)+i, w.Shard
 				w.Do("any", c.a)
 			} else if c.m != nil {
@@ -1508,6 +1519,7 @@ func main() {
 	run.Def(M, "u", runU)
 	run.Def(M, "first", runFirst)
 	run.Def(M, "any", runAny)
+	run.Def(M, "uany", runUAny)
 	M.Gen = generate
 	run.Main(M)
 }
